@@ -338,6 +338,26 @@ func (g *gen) pickPoints(cell s2.Cell, unit bool, n, offset int) []tpoint {
 	return out
 }
 
+// directedPoleTargets: targets on which edgeDistance computes pq2 > 1 (sqrt of a negative
+// number -> NaN): the midpoint of each side (it is 90 degrees from the great circle of the
+// opposite side of a face cell) and the outward pole of each side's great circle tilted by
+// eta towards the face normal, in (u,v,w): normalize(1, 0, -uHi+eta) for the right side etc.
+func directedPoleTargets(cell s2.Cell) []tpoint {
+	f, _ := cellFUV(cell)
+	out := []tpoint{}
+	for k := 0; k < 4; k++ {
+		out = append(out, tpoint{"directed:sideMidpoint", nz(s2.Point{Vector: cell.Vertex(k).Add(cell.Vertex((k + 1) & 3).Vector)})})
+	}
+	w := fuv(f, 0, 0)
+	for k := 0; k < 4; k++ {
+		n := neg(cell.EdgeRaw(k))
+		for _, eta := range []float64{1e-10, -1e-10, 1e-9, -1e-9, 1e-8, -1e-8, 3e-8, -3e-8, 1e-7} {
+			out = append(out, tpoint{"directed:poleOfSide", nz(s2.Point{Vector: n.Add(w.Mul(eta))})})
+		}
+	}
+	return out
+}
+
 // distBranch recomputes, from the exported leaves, which return statement of
 // Cell.distanceInternal decides for this target.
 func distBranch(cell s2.Cell, p s2.Point) string {
@@ -644,7 +664,12 @@ func (g *gen) tCellPoint() {
 		}
 		rb, cb := cell.RectBound(), cell.CapBound()
 		// per cell and target point
-		for _, tp := range g.pickPoints(cell, false, 9, ci*9) {
+		tps := g.pickPoints(cell, false, 9, ci*9)
+		if cell.Level() == 0 { // directed NaN cases: the model must reproduce them bit for bit
+			d := directedPoleTargets(cell)
+			tps = append(tps, d[1], d[4+(ci*7)%36], d[4+(ci*7+13)%36])
+		}
+		for _, tp := range tps {
 			p := tp.p
 			P := ptT(p)
 			key := ckey + " " + ptKey(p)
